@@ -1,27 +1,6 @@
-SPECIFICATION TraceSpec
+SPECIFICATION TraceSpecChecked
 CONSTANTS
   Objects = {"e1", "e2"}
   Sharing = "global"
   Deltas = {2}
 INVARIANT Accepted
-INVARIANT InvShape
-INVARIANT InvStepTimes
-INVARIANT InvRecIsStep
-INVARIANT InvT0Record
-INVARIANT InvPolicyMono
-INVARIANT InvAllMono
-INVARIANT InvOnePerStep
-INVARIANT InvOnTSample
-INVARIANT InvOnTSampleEnd
-INVARIANT InvOnIteration
-INVARIANT InvOnInterval
-INVARIANT InvNoSampling
-INVARIANT InvFixedEnd
-INVARIANT InvGillEnd
-INVARIANT InvPosRange
-PROPERTY StickyComplete
-PROPERTY IdleAfterDone
-PROPERTY OnlyIterationsAdvance
-PROPERTY ObserversReadOnly
-PROPERTY ManualRule
-PROPERTY CleanSlate
